@@ -105,10 +105,12 @@ func (f *Defflavor) Call(s *slip.Scope, args slip.List, depth int) (result slip.
 	}
 
 	defVars := map[string]slip.Object{}
+	noDefault := map[string]bool{}
 	for _, v := range vars {
 		switch tv := v.(type) {
 		case slip.Symbol:
 			defVars[strings.ToLower(string(tv))] = nil
+			noDefault[strings.ToLower(string(tv))] = true
 		case slip.List:
 			if len(tv) != 2 {
 				slip.TypePanic(s, depth, "vars element of defflavor", tv, "symbol", "list of symbol and value")
@@ -126,15 +128,33 @@ func (f *Defflavor) Call(s *slip.Scope, args slip.List, depth int) (result slip.
 			slip.TypePanic(s, depth, "vars element of defflavor", tv, "symbol", "list of symbol and value")
 		}
 	}
-	_ = DefFlavor(string(name), defVars, inherit, args[3:], slip.CurrentPackage)
+	_ = defFlavor(string(name), defVars, noDefault, inherit, args[3:], slip.CurrentPackage)
 
 	return name
 }
 
-// DefFlavor defines a new flavor.
+// DefFlavor defines a new flavor. A nil value in vars is a variable without
+// a default value.
 func DefFlavor(
 	name string,
 	vars map[string]slip.Object,
+	inherit []string,
+	options slip.List,
+	p *slip.Package) *Flavor {
+
+	noDefault := map[string]bool{}
+	for k, v := range vars {
+		if v == nil {
+			noDefault[k] = true
+		}
+	}
+	return defFlavor(name, vars, noDefault, inherit, options, p)
+}
+
+func defFlavor(
+	name string,
+	vars map[string]slip.Object,
+	noDefault map[string]bool,
 	inherit []string,
 	options slip.List,
 	p *slip.Package) *Flavor {
@@ -147,6 +167,7 @@ func DefFlavor(
 	nf := &Flavor{
 		name:        name,
 		defaultVars: vars,
+		noDefault:   noDefault,
 		keywords:    map[string]slip.Object{},
 		methods:     map[string]*slip.Method{},
 		varDocs:     map[string]string{},
